@@ -66,8 +66,8 @@ PROPS = {
     },
     "C12": {
         "pkg": "session", "level": "exploration",
-        "quick": {"stages": [st("^TestC12Session", 500), st("^TestC12LongLivedRelay", 12, shards=3), st("^TestC12FanOut", 40, shards=2), st("^TestC12SlowReader", 2), st("^TestC12CloseAfterBurst", 100, shards=2), st("^TestC12Regress", 1)]},
-        "thorough": {"stages": [st("^TestC12Session", 6000, shards=12, timeout=3000), st("^TestC12Session", 800, shards=4, race=True, timeout=3000), st("^TestC12LongLivedRelay", 300, shards=4, timeout=3000), st("^TestC12FanOut", 1500, shards=4, timeout=3000), st("^TestC12FanOut", 100, shards=2, race=True, timeout=3000), st("^TestC12SlowReader", 12, shards=3, timeout=3000), st("^TestC12CloseAfterBurst", 4000, shards=4, timeout=3000), st("^TestC12Regress", 1)]},
+        "quick": {"stages": [st("^TestC12Session", 500), st("^TestC12LongLivedRelay", 12, shards=3), st("^TestC12FanOut", 40, shards=2), st("^TestC12SlowReader", 2), st("^TestC12SteadyReader", 3), st("^TestC12CloseAfterBurst", 100, shards=2), st("^TestC12Regress", 1)]},
+        "thorough": {"stages": [st("^TestC12Session", 6000, shards=12, timeout=3000), st("^TestC12Session", 800, shards=4, race=True, timeout=3000), st("^TestC12LongLivedRelay", 300, shards=4, timeout=3000), st("^TestC12FanOut", 1500, shards=4, timeout=3000), st("^TestC12FanOut", 100, shards=2, race=True, timeout=3000), st("^TestC12SlowReader", 12, shards=3, timeout=3000), st("^TestC12SteadyReader", 40, shards=4, timeout=3000), st("^TestC12CloseAfterBurst", 4000, shards=4, timeout=3000), st("^TestC12Regress", 1)]},
     },
     "C13": {
         "pkg": "session", "level": "exploration",
@@ -76,8 +76,8 @@ PROPS = {
     },
     "C20": {
         "pkg": "core", "level": "exploration",
-        "quick": {"stages": [st("^TestC20", 3000)]},
-        "thorough": {"stages": [st("^TestC20", 200000, shards=8, timeout=3000)]},
+        "quick": {"stages": [st("^TestC20", 3000), st("^TestNIP11ConcurrentDocuments", 8, shards=2)]},
+        "thorough": {"stages": [st("^TestC20", 200000, shards=8, timeout=3000), st("^TestNIP11ConcurrentDocuments", 300, shards=4, timeout=3000), st("^TestNIP11ConcurrentDocuments", 40, shards=2, race=True, timeout=3000)]},
     },
     "C16": {
         "pkg": "handlers", "level": "exploration",
